@@ -31,6 +31,8 @@ def cval(v):
         return "(VList [%s])" % ";".join(cval(x) for x in v)
     if isinstance(v, tuple):
         return "(VTuple [%s])" % ";".join(cval(x) for x in v)
+    if type(v).__name__ == "Script" and type(v).__module__ == "btc_hd_wallet.script":
+        return '(VObj "Script" [%s])' % cval(v.cmds)
     raise TypeError("value outside MiniPy: %r" % (v,))
 
 
@@ -48,6 +50,8 @@ def jval(v):
         return {"list": [jval(x) for x in v]}
     if isinstance(v, tuple):
         return {"tuple": [jval(x) for x in v]}
+    if type(v).__name__ == "Script":
+        return {"script": jval(v.cmds)}
     raise TypeError(v)
 
 
@@ -65,6 +69,9 @@ def unj(j):
             return [unj(x) for x in j["list"]]
         if "tuple" in j:
             return tuple(unj(x) for x in j["tuple"])
+        if "script" in j:
+            from btc_hd_wallet.script import Script
+            return Script(unj(j["script"]))
     return j
 
 
@@ -186,6 +193,32 @@ def gen_args(rng, qual, tier):
         for _ in range(n):
             out.append((rb(L), rng.random() < 0.5, rng.choice([0, 0, 0, 1, 16])))
         out += [(rb(L), False, 17), (rb(L), True, -1), (rb(52 - L), False, 0), (rb(19), False, 0), (rb(33), True, 0), (rb(1), False, 1), (rb(41), False, 1), (b"", False, 0), (rb(40), True, 16)]
+    elif qual == "wallet_utils.Bip32Path.convert_hardened":
+        ss = ["0", "1", "44'", "44h", "0'", "0h", "2147483647", "2147483648", "2147483647'", "2147483648'", "4294967295", "4294967296", "4294967295h",
+              "-1", "-1'", "-0", "+5", "+5'", " 7", "7 ", " 7 '", "1_0", "1__0", "_1", "1_", "0x10", "1e3", "", "'", "h", "''", "h'", "x", "1x", "٣",
+              "00012", "9" * 30, "9" * 30 + "'", "\t5\n", "5\x1f", "- 5", "+", "-", "+'", "1 2", "1'h", "1h'", "１２"]
+        for _ in range(n):
+            v = rng.choice([rng.randrange(0, 2 ** 31), rng.randrange(2 ** 31, 2 ** 32), rng.randrange(2 ** 32, 2 ** 40), rng.randrange(0, 100)])
+            ss.append(str(v) + rng.choice(["", "'", "h"]))
+        out += [(x,) for x in ss]
+    elif qual == "wallet_utils.Bip32Path.is_hardened":
+        out += [(v,) for v in (0, 1, 2 ** 31 - 1, 2 ** 31, 2 ** 31 + 1, 2 ** 32, -1, -2 ** 31)]
+    elif qual == "wallet_utils.Bip32Path.is_private":
+        out += [(v,) for v in ("m", "M", "", "mm", "x", None, 0)]
+    elif qual in ("script.Script.raw_serialize", "script.Script.serialize"):
+        from btc_hd_wallet.script import Script
+        for L in (0, 1, 2, 74, 75, 76, 77, 254, 255, 256, 257, 519, 520, 521, 600):
+            out.append((Script([rb(L)]),))
+        for o in (0, 1, 75, 76, 77, 78, 79, 80, 81, 96, 118, 169, 172, 255, 256, -1, 1000):
+            out.append((Script([o]),))
+        for b in (0x00, 0x01, 0x10, 0x51, 0x60, 0x81, 0xff):
+            out.append((Script([bytes([b])]),))
+        for _ in range(n):
+            cmds = []
+            for _ in range(rng.randrange(0, 6)):
+                cmds.append(rng.choice([rng.randrange(0, 256), rb(rng.choice([1, 2, 20, 32, 33, 75, 76, 255, 256, 520])), rb(rng.randrange(0, 80))]))
+            out.append((Script(cmds),))
+        out += [(Script([]),), (Script(),), (Script([rb(255)] * 260),), (Script([True]),), (Script([5, rb(521), 300]),), (Script([300, rb(521)]),)]
     else:
         raise KeyError(qual)
     return out
@@ -210,17 +243,20 @@ class PySemProp(BaseProp):
         cases = []
         for q in self.funcs:
             for args in gen_args(rng, q, tier):
-                cases.append({"kind": "Sem:" + q.split(".")[1], "f": q, "args": [jval(a) for a in args]})
+                cases.append({"kind": "Sem:" + q.split(".")[-1], "f": q, "args": [jval(a) for a in args]})
         return cases
 
     def run_impl(self, case):
-        mod, fn = case["f"].split(".")
-        m = importlib.import_module("btc_hd_wallet." + mod)
+        parts = case["f"].split(".")
+        m = importlib.import_module("btc_hd_wallet." + parts[0])
+        target = m
+        for part in parts[1:]:
+            target = getattr(target, part)          # module function, static method, or plain function of a class (self passed first)
         args = [unj(a) for a in case["args"]]
         rec = Recorder()
         with rec.installed():
             try:
-                r = ("val", getattr(m, fn)(*args))
+                r = ("val", target(*args))
             except Exception as e:
                 r = ("exc", type(e).__name__)
         if r[0] == "val":
